@@ -201,7 +201,8 @@ func (g *Gen) snippet() string {
 			return Pick(r, []string{`<p>{{ n | double }}</p>`, `<p>{{ name | ctxfn }}</p>`, `<p>{{ name | wrap | upper }}</p>`, `<p>{{ join2(name, cls) }}</p>`})
 		}},
 		{"expr", func() string {
-			return Pick(r, []string{`<p>{{ n + 1 }} {{ n * 2 > 4 }}</p>`, `<p>{{ flag ? "yes" : "no" }} {{ len(items) }}</p>`, `<p>{{ user.name + "!" }}</p>`, `<p>{{ n >= 2 && flag }}</p>`})
+			return Pick(r, []string{`<p>{{ n + 1 }} {{ n * 2 > 4 }}</p>`, `<p>{{ flag ? "yes" : "no" }} {{ len(items) }}</p>`, `<p>{{ user.name + "!" }}</p>`, `<p>{{ n >= 2 && flag }}</p>`,
+				`<p>{{ keys(m) }} / {{ values(m) }}</p>`, `<template :ks="keys(m)"><i v-for="k in ks">{{ k }}</i></template>`, `<p :data-pairs="toPairs(m)">{{ len(toPairs(m)) }}</p>`})
 		}},
 		{"include", func() string {
 			switch r.Intn(5) {
